@@ -371,6 +371,9 @@ func mergePrefixesSuffixes(target *Parser, source *Parser, out *bytes.Buffer) (*
 	return newOut, nil
 }
 
+// maxExpandedDefinitionLength is the maximum length of the text a definition may expand to.
+const maxExpandedDefinitionLength = 16 << 20
+
 func expandDefinitions(src *bytes.Buffer, variables map[string]string) *bytes.Buffer {
 	logger.Trace().Msgf("expanding definitions in: %v", src.String())
 	// Always expand in the same order (by name). The order shows in the result when definitions
@@ -387,6 +390,11 @@ func expandDefinitions(src *bytes.Buffer, variables map[string]string) *bytes.Bu
 		replacement := variables[name]
 		for _, sourceName := range names {
 			variables[sourceName] = strings.ReplaceAll(variables[sourceName], needle, replacement)
+			if len(variables[sourceName]) > maxExpandedDefinitionLength {
+				// Definitions that refer to a definition more than once grow exponentially with every
+				// level. Stop before the expansion exhausts the memory of the machine.
+				logger.Fatal().Msgf("definition %s expands to more than %d bytes", sourceName, maxExpandedDefinitionLength)
+			}
 		}
 	}
 	// Now replace definitions in the rest of the file
